@@ -85,6 +85,29 @@ def run(ctx):
                 elif len(ctx.samples) < 4:
                     ctx.sample({"cfg": {k: cfg[k] for k in ('kind', 'ns', 'N')}, "resumed_from_iteration": p["iteration"], "route": route,
                                 "iterations": len(r.history.beta), "identical": True})
+    # ---- single-precision runs (not replayed through the binary64 model): resumed from a mid-run and from the last payload
+    n32 = 0
+    for cfg in [c for c in sb.f32_cfgs(ctx, ctx.scale(12, 60)) if c["kind"] != "emcee_smc"]:
+        r = sr.do_run(cfg)
+        if r.error is not None:
+            ctx.violation(f"float32-run-raises:{r.error[0]}", f"single-precision run raised {r.error[:2]}", {"cfg": cfg})
+            continue
+        pl = [p for p in r.payloads if p["bytes"] is not None]
+        for i in sorted({len(pl) // 2, len(pl) - 1} if pl else set()):
+            p = pl[i]
+            r2 = sr.do_run(cfg, resume_from=p["bytes"], vid0=10000)
+            n32 += 1
+            ctx.count((cfg["seed"], p["iteration"], p["forced"], "float32"), True, kind=f"resume/float32/{cfg['ns']}")
+            rep = {"cfg": cfg, "checkpoint_iteration": p["iteration"], "forced_final": p["forced"], "route": "bytes", "width": "float32"}
+            if r2.error is not None:
+                ctx.violation(f"resume-raises:float32:{r2.error[0]}", f"resume of a single-precision run from iteration {p['iteration']} raised {r2.error[:2]}", rep)
+                continue
+            diffs = sr.same_outcome(r, r2)
+            if diffs:
+                rep["differences"] = diffs
+                ctx.violation(f"resume-differs:float32:{diffs[0].split(':')[0].split(' (')[0]}",
+                              f"single-precision run resumed from iteration {p['iteration']} != uninterrupted: {diffs[:3]}", rep)
+    ctx.extra["float32_resumptions"] = n32
     # ---- fault injection on callback runs: the caller keeps the dictionary it was handed (not a serialised copy); after the run
     #      went on and failed, that object must still BE the checkpoint, and resuming from it must reproduce the reference
     nlive = 0
